@@ -23,6 +23,10 @@ type Engine struct {
 	funcs  map[string]*ssa.Function // key -> function (incl. closures)
 	keyOf  map[*ssa.Function]string
 	roots  []*ssa.Function
+	// contract-less unexported helpers decided only at their call sites
+	inlineOnly []string
+	// package-level slices initialised from a literal of constants and never written afterwards
+	constTables map[string][]*ssa.Const
 	strIDs map[string]int
 	strs   []string
 	tyIDs  map[string]int
@@ -108,7 +112,62 @@ func LoadEngine(repo string, contractsPath string) (*Engine, error) {
 			e.roots = append(e.roots, fn)
 		}
 	}
+	// An unexported helper without a contract block that is only ever called directly by other functions of
+	// the package is not verified on its own (with arbitrary arguments and lock state): it is inlined at each call
+	// site and its obligations are decided there, where the arguments are known. It stays a root if it is used
+	// as a value (callback, goroutine entry through a variable) or has no caller at all.
+	called := map[*ssa.Function]bool{}
+	valued := map[*ssa.Function]bool{}
+	for _, fn := range e.funcs {
+		for _, b := range fn.Blocks {
+			for _, in := range b.Instrs {
+				var cc *ssa.CallCommon
+				switch x := in.(type) {
+				case *ssa.Call:
+					cc = &x.Call
+				case *ssa.Go:
+					cc = &x.Call
+				case *ssa.Defer:
+					cc = &x.Call
+				}
+				var callee *ssa.Function
+				if cc != nil {
+					callee = cc.StaticCallee()
+					if callee != nil && callee != fn {
+						called[callee] = true
+					}
+				}
+				for _, op := range in.Operands(nil) {
+					if op == nil || *op == nil {
+						continue
+					}
+					if f, ok := (*op).(*ssa.Function); ok && f != callee {
+						valued[f] = true
+					}
+					if mc, ok := (*op).(*ssa.MakeClosure); ok {
+						if f, ok := mc.Fn.(*ssa.Function); ok && f.Parent() == nil {
+							valued[f] = true
+						}
+					}
+				}
+			}
+		}
+	}
+	kept := e.roots[:0]
+	for _, fn := range e.roots {
+		k := e.keyOf[fn]
+		_, hasContract := cs.Funcs[k]
+		exported := fn.Object() != nil && fn.Object().Exported()
+		if !hasContract && !exported && called[fn] && !valued[fn] && fn.Pkg == e.pkg {
+			e.inlineOnly = append(e.inlineOnly, k)
+			continue
+		}
+		kept = append(kept, fn)
+	}
+	e.roots = kept
+	sort.Strings(e.inlineOnly)
 	sort.Slice(e.roots, func(i, j int) bool { return e.keyOf[e.roots[i]] < e.keyOf[e.roots[j]] })
+	e.findConstTables()
 	if err := e.loadCatalogue(); err != nil {
 		return nil, err
 	}
@@ -270,3 +329,88 @@ func (e *Engine) fieldDecl(root string, path []string) *FieldDecl {
 
 // sharedStructs are the struct types whose every field must be declared.
 var sharedStructs = []string{"kvElection", "disconnectHandler", "natsConnectionMonitor", "CircuitBreaker", "natsWatcherAdapter", "MockWatcherAdapter"}
+
+
+// findConstTables recognises `var table = []T{c0, c1, ...}` at package level: the init function stores constants
+// into a fresh array, slices it and stores the slice into the global; no other instruction of the package writes the
+// global or takes its address. Such a table is read as the constant slice it is (loops over it are unrolled).
+func (e *Engine) findConstTables() {
+	e.constTables = map[string][]*ssa.Const{}
+	initFn := e.pkg.Func("init")
+	if initFn == nil {
+		return
+	}
+	elems := map[*ssa.Alloc]map[int64]*ssa.Const{}
+	size := map[*ssa.Alloc]int64{}
+	cand := map[*ssa.Global]*ssa.Alloc{}
+	bad := map[*ssa.Global]bool{}
+	for _, b := range initFn.Blocks {
+		for _, in := range b.Instrs {
+			st, ok := in.(*ssa.Store)
+			if !ok {
+				continue
+			}
+			if ia, ok := st.Addr.(*ssa.IndexAddr); ok {
+				if al, ok := ia.X.(*ssa.Alloc); ok {
+					if ix, ok := ia.Index.(*ssa.Const); ok && ix.Value != nil {
+						if c, ok := st.Val.(*ssa.Const); ok {
+							if elems[al] == nil {
+								elems[al] = map[int64]*ssa.Const{}
+							}
+							elems[al][ix.Int64()] = c
+							continue
+						}
+					}
+					elems[al] = nil
+					size[al] = -1
+				}
+				continue
+			}
+			if g, ok := st.Addr.(*ssa.Global); ok && g.Pkg == e.pkg {
+				if sl, ok := st.Val.(*ssa.Slice); ok && sl.Low == nil && sl.High == nil {
+					if al, ok := sl.X.(*ssa.Alloc); ok {
+						if at, ok := al.Type().(*types.Pointer).Elem().Underlying().(*types.Array); ok && cand[g] == nil {
+							cand[g] = al
+							size[al] = at.Len()
+							continue
+						}
+					}
+				}
+				bad[g] = true
+			}
+		}
+	}
+	// any other use of the global than a plain load disqualifies it
+	for _, fn := range e.funcs {
+		for _, b := range fn.Blocks {
+			for _, in := range b.Instrs {
+				for _, op := range in.Operands(nil) {
+					g, ok := (*op).(*ssa.Global)
+					if !ok || cand[g] == nil {
+						continue
+					}
+					if u, isLoad := in.(*ssa.UnOp); isLoad && u.X == g {
+						continue
+					}
+					if st, isStore := in.(*ssa.Store); isStore && st.Addr == g && fn == initFn {
+						continue
+					}
+					bad[g] = true
+				}
+			}
+		}
+	}
+	for g, al := range cand {
+		if bad[g] || size[al] < 0 || int64(len(elems[al])) != size[al] {
+			continue
+		}
+		var cs []*ssa.Const
+		for i := int64(0); i < size[al]; i++ {
+			cs = append(cs, elems[al][i])
+		}
+		e.constTables[g.Name()] = cs
+	}
+	if os.Getenv("GOVC_DEBUG") != "" {
+		fmt.Fprintf(os.Stderr, "const tables: %d candidates, bad=%v, found=%d\n", len(cand), len(bad), len(e.constTables))
+	}
+}
